@@ -172,6 +172,7 @@ theorem vw_reapSinks (sids : List Nat) (s : BSt) : vw (reapSinks s sids) = vw s 
 /-- every predicate of the view survives the backend's own steps -/
 theorem closedC_of_vw (Q : List String × List (Nat × Nat) × List Actor × Bool → Prop) :
     ClosedC (fun s => Q (vw s)) where
+  note := fun _ h => h
   clock := fun _ _ h => h
   gone := fun _ h => h
   lastFlush := fun _ _ h => h
